@@ -247,10 +247,10 @@ Qed.
 Definition within_limits (c : config) (b : list arg) : Prop :=
   (forall n, c_n c = Some n -> len b <= n) /\
   (forall l, c_L c = Some l -> b = [] \/ 1 + count_hard (removelast b) <= l) /\
-  (forall s, c_s c = Some s -> c_replace c = false -> isum 0 (c_init c) + total 0 b <= s /\ Forall (fun a => cost a <= usize_max) b) /\
-  (isum 8 (c_init c) + total 8 b <= c_sys c /\ Forall (fun a => cost a <= max_single_arg) b).
+  (forall s, c_s c = Some s -> c_replace c = false -> isum 0 (charged c) + total 0 b <= s /\ Forall (fun a => cost a <= usize_max) b) /\
+  (isum 8 (charged c) + total 8 b <= c_sys c /\ Forall (fun a => cost a <= max_single_arg) b).
 
-Lemma all_ok_within c b : all_ok (map (advi (c_init c)) (limiters0 c)) b <-> within_limits c b.
+Lemma all_ok_within c b : all_ok (map (advi (charged c)) (limiters0 c)) b <-> within_limits c b.
 Proof.
   unfold within_limits, limiters0, all_ok.
   destruct (c_n c) as [n|], (c_L c) as [l|], (c_s c) as [s|], (c_replace c); cbn [app map advi];
